@@ -60,7 +60,7 @@ func c08Scenarios(tier string) []*Scenario {
 		}
 	}
 	// HTTP: single-request methods (server-streaming) given 0, 1, 2 request frames
-	for _, c := range [][]string{{"C", "R*"}, {"S0", "C", "R*"}, {"S0", "S1", "C", "R*"}} {
+	for _, c := range [][]string{{"C", "R*"}, {"S0", "C", "R*"}, {"S0", "S1", "C", "R*"}, {"S0", "E1", "C", "R*"}, {"E0", "C", "R*"}, {"E0", "E1", "C", "R*"}} {
 		add("http", "", RPC{Kind: "ss", Client: c, Handler: []string{"r", "r", "s0", "ret:ok"}})
 		add("http", "", RPC{Kind: "ss", Client: c, Handler: []string{"r", "s0", "ret:ok"}})
 	}
@@ -77,7 +77,7 @@ func c08Oracle(sc *Scenario, rec *Rec, s *mc.Sched) []mc.Violation {
 		// request cardinality over HTTP
 		n := 0
 		for _, o := range rpc.Client {
-			if o[0] == 'S' {
+			if o[0] == 'S' || o[0] == 'E' {
 				n++
 			}
 		}
